@@ -17,15 +17,18 @@ RULE = (
     "case), 1-60, and 240-335 (beyond the precomputed table); recombination costs 0-100; priors uniform / skewed / near-degenerate given as probabilities exactly as "
     "cli/genotype.py passes them) through whatshap.core.GenotypeDPTable; oracle O-fb = enumeration of all 2^R global read-side "
     "vectors with a dense float64 forward-backward over (transmission, allele assignment); agreement within 1e-9 absolute. "
+    "(a') deep: one individual with 11-16 reads active in every column (the default --max-coverage 15), 2-4 columns, gapped reads "
+    "anywhere in the read order; oracle = the same model factorised over reads (sum over allele pairs per column, each read on "
+    "either side with probability 1/2), cross-checked against the side-vector enumeration in setup_cmd. "
     "(b) pipeline: whatshap genotype (run_genotype in-process, GenotypeDPTable interposed) on simulated data with read errors, "
     "--gt-qual-threshold 0-50, --nopriors, --ped, --chromosome, constants; every output call of a processed chromosome: 10^GL sums "
     "to 1 (+-1e-3), GT = unique arg-max above the threshold else ./., GQ = phred of the remaining mass (+-1), and for accessible "
     "positions GL == log10 of what the core returned. Non-trivial: (a) an instance with >=2 columns and a column with >=2 active "
     "reads; (b) a run with >=1 call that is not ./.; distinct by instance / run hash."
 )
-REQUIRED_COUNTERS = ["core_instances", "core_posteriors_compared", "pipeline_runs_ok", "calls_checked", "core_vs_vcf_checked", "rule_evaluations"]
+REQUIRED_COUNTERS = ["deep_instances", "core_instances", "core_posteriors_compared", "pipeline_runs_ok", "calls_checked", "core_vs_vcf_checked", "rule_evaluations"]
 ASSUMPTIONS = [
-    "R <= 9 reads per brute-forced instance (2^R side vectors x dense forward-backward)",
+    "R <= 9 reads per brute-forced instance (2^R side vectors x dense forward-backward); 11-16 reads only for single individuals (factorised oracle)",
     "calls whose maximum is within 1e-4 of the threshold or of the runner-up are counted as borderline and not judged for GT",
 ]
 WATCHDOG = {"quick": 400, "thorough": 1200}
@@ -34,8 +37,8 @@ TOL = 1e-9
 
 def lanes(tier):
     if tier == "quick":
-        return [("core", "plain", 160), ("coresan", "san", 32), ("pipe", "plain", 64), ("rule", "plain", 16)]
-    return [("core", "plain", 3000), ("coresan", "san", 400), ("pipe", "plain", 1200), ("rule", "plain", 64), ("vg-coresan", "vg", 12)]
+        return [("core", "plain", 160), ("deep", "plain", 32), ("coresan", "san", 32), ("pipe", "plain", 64), ("rule", "plain", 16)]
+    return [("core", "plain", 3000), ("deep", "plain", 600), ("coresan", "san", 400), ("pipe", "plain", 1200), ("rule", "plain", 64), ("vg-coresan", "vg", 12)]
 
 
 def run_rule(idx, rng, counters):
@@ -114,6 +117,44 @@ def gen_core(rng, lane):
     return inst
 
 
+def gen_deep(rng):
+    """One individual at the coverage the command line allows by default (--max-coverage 15): 11-16 reads active in every column,
+    2-4 columns, reads with internal gaps (mate pairs) anywhere in the read order. The table then walks 2^R bipartitions per
+    column incrementally; the oracle is the factorised formulation (independent of R)."""
+    n = rng.choice([2, 3, 3, 4])
+    step = rng.choice([1, 10])
+    positions = sorted(rng.sample(range(1, 1 + n * step * 2), n))
+    R = rng.randint(11, 16)
+    truth = [[rng.randint(0, 1) for _ in range(n)] for _ in range(2)]
+    reads = []
+    for r in range(R):
+        full = rng.random() < 0.5
+        if full or n == 2:
+            cov = list(positions)
+            if n > 2 and rng.random() < 0.5:
+                cov = [positions[0]] + [p for p in positions[1:-1] if rng.random() < 0.5] + [positions[-1]]  # gapped, spans everything
+        else:
+            i0 = rng.randrange(0, n - 1)
+            i1 = rng.randrange(i0 + 1, n)
+            span = positions[i0 : i1 + 1]
+            cov = [span[0]] + [p for p in span[1:-1] if rng.random() < 0.6] + [span[-1]]
+        h = rng.randint(0, 1)
+        vs = []
+        for p in cov:
+            a = truth[h][positions.index(p)]
+            if rng.random() < 0.15:
+                a = 1 - a
+            vs.append([p, a, rng.choice([0, 1, 3, 10, 20, 30, 45, 60]) if rng.random() < 0.85 else rng.randint(240, 335)])
+        reads.append({"ind": 0, "vars": vs})
+    priors = [[]]
+    for c in range(n):
+        p = [rng.random() + 0.05 for _ in range(3)] if rng.random() < 0.6 else [1 / 3, 1 / 3, 1 / 3]
+        z = sum(p)
+        priors[0].append([x / z for x in p])
+    return {"kind": "single-deep", "n_ind": 1, "triples": [], "positions": positions, "reads": reads, "priors": priors,
+            "recomb": [rng.choice([0, 1, 10, 60]) for _ in range(n)], "explicit_positions": True}
+
+
 def run_core(inst):
     from whatshap.core import Genotype, GenotypeDPTable, NumericSampleIds, Pedigree, PhredGenotypeLikelihoods, Read, ReadSet
 
@@ -148,7 +189,12 @@ def check_core(inst, counters):
     except Exception:
         tb = traceback.format_exc()
         return [{"mech": "core-crash:" + tb.strip().splitlines()[-1].split(":")[0], "msg": tb[-1200:]}], False
-    exp = fb.posteriors(inst)
+    if inst.get("kind") == "single-deep":
+        exp = fb.posteriors_single_factorised(inst)
+        counters["deep_instances"] = counters.get("deep_instances", 0) + 1
+        counters["max_deep_active_reads"] = max(counters.get("max_deep_active_reads", 0), max(len(mec.active_reads(inst, c)) for c in range(len(inst["positions"]))))
+    else:
+        exp = fb.posteriors(inst)
     counters["core_instances"] = counters.get("core_instances", 0) + 1
     worst = 0.0
     for i in range(inst["n_ind"]):
@@ -317,7 +363,7 @@ def run_case(idx, rng, tier, lane):
             sample = desc["options"]
     else:
         for j in range(10 if lane == "core" else 5):
-            inst = gen_core(rng, lane)
+            inst = gen_deep(rng) if lane == "deep" else gen_core(rng, lane)
             v, nt = check_core(inst, counters)
             for x in v:
                 x["data"] = inst
